@@ -186,6 +186,14 @@ class Sim:
         t = Task(self, name, fn)
 
         def body():
+            # the watchdog's timer signals must reach the MAIN thread (only there does Python run the handler, and only a
+            # signal delivered to that thread interrupts its blocking acquire): a CPU-time timer would otherwise be
+            # delivered to whichever thread is burning the CPU
+            try:
+                import signal as _sig
+                _sig.pthread_sigmask(_sig.SIG_BLOCK, {_sig.SIGPROF, _sig.SIGALRM})
+            except (AttributeError, ValueError, OSError):
+                pass
             t.sem.acquire()
             if self.killed:
                 t.state = "done"
